@@ -408,16 +408,43 @@ func (c *walkCtx) handleCall(call *ast.CallExpr, deferred bool) {
 	if len(names) == 0 {
 		return
 	}
+	// a call through an interface: every method of that name declared in the parsed packages is a
+	// possible callee (hashmap.Hasher is implemented by tree.Edge and tree.Quartet)
+	if sig, isSig := fn.Type().(*types.Signature); isSig && sig.Recv() != nil {
+		if _, isIface := sig.Recv().Type().Underlying().(*types.Interface); isIface {
+			var cands []string
+			for name, d := range c.x.decls {
+				if d.decl.Recv != nil && d.decl.Name.Name == fn.Name() && d.decl.Body != nil &&
+					d.decl.Type.Params.NumFields() == sig.Params().Len() {
+					cands = append(cands, name)
+				}
+			}
+			sort.Strings(cands)
+			if len(cands) == 0 {
+				c.g.Unfollowed = append(c.g.Unfollowed, fmt.Sprintf("%s(%s) interface", shortName(full), strings.Join(uniq(names), ",")))
+				return
+			}
+			for _, name := range cands {
+				c.follow(name, c.x.decls[name], recv, call, names)
+			}
+			return
+		}
+	}
 	d, ok := c.x.decls[full]
-	if ok && c.chain[full] {
+	if !ok {
+		c.g.Unfollowed = append(c.g.Unfollowed, fmt.Sprintf("%s(%s) external", shortName(full), strings.Join(uniq(names), ",")))
+		return
+	}
+	c.follow(full, d, recv, call, names)
+}
+
+// follow analyses the body of a callee into which a tracked variable flows.
+func (c *walkCtx) follow(full string, d *fnDecl, recv ast.Expr, call *ast.CallExpr, names []string) {
+	if c.chain[full] {
 		return // recursion: the body is already being analysed
 	}
-	if !ok || d.decl.Body == nil || c.depth >= 3 {
-		why := "external"
-		if ok {
-			why = "depth"
-		}
-		c.g.Unfollowed = append(c.g.Unfollowed, fmt.Sprintf("%s(%s) %s", shortName(full), strings.Join(uniq(names), ","), why))
+	if d.decl.Body == nil || c.depth >= 3 {
+		c.g.Unfollowed = append(c.g.Unfollowed, fmt.Sprintf("%s(%s) depth", shortName(full), strings.Join(uniq(names), ",")))
 		return
 	}
 	e := c.clone()
